@@ -1,2 +1,251 @@
+"""C03 (M), long-lived owners of compiled functions: solver.System (__cache of assemble_* functions), function.Basis
+(_arg_dofs/_arg_coeffs/_arg_ndofs), topology.locate (xJ), topology.trim (levelset), sample evaluation.
+
+Every scenario drives ONE owner object through a history of calls with changing arguments — including changing only the
+non-trial arguments, repeating earlier arguments, and overwriting every writable array returned earlier — and compares each
+answer with the answer of a FRESH owner built from scratch for that call ("what a freshly generated function returns").
+Argument arrays are compared bit for bit before/after.  Kind of the obligations: exploration (no Lean theorem is specific to
+these owners; the compiled functions inside them are instances of the model of Props/C03.lean).
+"""
+import numpy, collections, itertools
+from .c03 import snapshot, args_changed, same_value, leaves, describe_args
+
+
+def canon(x):
+    """comparable form of an owner's answer"""
+    from nutils import matrix
+    if isinstance(x, matrix.Matrix):
+        return ('matrix', x.shape, numpy.asarray(x.export('dense')))
+    if isinstance(x, dict):
+        return ('dict', tuple((k, canon(v)) for k, v in sorted(x.items())))
+    if isinstance(x, (tuple, list)):
+        return ('seq', tuple(canon(v) for v in x))
+    if x is None:
+        return ('none',)
+    if hasattr(x, 'points') and hasattr(x, 'npoints'):   # a Sample
+        return ('sample', x.npoints)
+    return ('array', numpy.asarray(x))
+
+
+def canon_equal(a, b):
+    if a[0] != b[0]: return False
+    if a[0] == 'matrix': return a[1] == b[1] and numpy.array_equal(a[2], b[2], equal_nan=True)
+    if a[0] == 'dict': return len(a[1]) == len(b[1]) and all(k1 == k2 and canon_equal(v1, v2) for (k1, v1), (k2, v2) in zip(a[1], b[1]))
+    if a[0] == 'seq': return len(a[1]) == len(b[1]) and all(canon_equal(x, y) for x, y in zip(a[1], b[1]))
+    if a[0] in ('none',): return True
+    if a[0] == 'sample': return a[1] == b[1]
+    x, y = a[1], b[1]
+    return x.shape == y.shape and x.dtype == y.dtype and numpy.array_equal(x, y, equal_nan=x.dtype.kind in 'fc')
+
+
+def writable_arrays(x):
+    if isinstance(x, dict):
+        for v in x.values(): yield from writable_arrays(v)
+    elif isinstance(x, (tuple, list)):
+        for v in x: yield from writable_arrays(v)
+    elif isinstance(x, numpy.ndarray) and x.flags.writeable and x.size:
+        yield x
+
+
+def attempt(fn):
+    try:
+        with numpy.errstate(all='ignore'):
+            return ('ok', fn())
+    except Exception as e:
+        return ('exc', type(e).__name__)
+
+
+class Scenario:
+    """owner factory + list of operations; op(owner, args) -> answer"""
+
+    def __init__(self, name, make_owner, ops, argsets):
+        self.name, self.make_owner, self.ops, self.argsets = name, make_owner, ops, argsets
+
+
+def run_scenario(c, sc, ncalls):
+    rng = c.rng
+    owner = sc.make_owner()
+    returned = []
+    events = []
+    nbad = 0
+    for k in range(ncalls):
+        opname = rng.choice(sorted(sc.ops))
+        iarg = rng.randrange(len(sc.argsets)) if k else 0
+        args = {kk: numpy.array(v) for kk, v in sc.argsets[iarg].items()}
+        if k and rng.random() < .4:
+            n = 0
+            for r in returned:
+                try: r[...] = 777; n += 1
+                except Exception: pass
+            events.append(dict(event='scribble', n=n)); c.count('owners:scribbled', n)
+        snap = snapshot(args)
+        got = attempt(lambda: sc.ops[opname](owner, args))
+        changed = args_changed(args, snap)
+        events.append(dict(event='call', op=opname, argset=iarg, outcome=got[0] if got[0] == 'ok' else got[1]))
+        c.count('owners:%s:%s' % (sc.name, opname)); c.traces += 1
+        c.count('owners:outcome:%s:%s' % (sc.name, got[0] if got[0] == 'ok' else got[1]))
+        detail = dict(scenario=sc.name, history=events, args=describe_args(args))
+        if changed is not None:
+            nbad += 1
+            c.failing_input('owner-modifies-argument:' + sc.name, 'long-lived owner %s modified argument %r' % (sc.name, changed), detail)
+        fresh_args = {kk: numpy.array(v) for kk, v in sc.argsets[iarg].items()}
+        want = attempt(lambda: sc.ops[opname](sc.make_owner(), fresh_args))
+        ok = got[0] == want[0] and (canon_equal(canon(got[1]), canon(want[1])) if got[0] == 'ok' else got[1] == want[1])
+        if not ok:
+            nbad += 1
+            c.failing_input('owner-call-differs-from-fresh:' + sc.name + ':' + opname,
+                            '%s.%s on a long-lived object differs from the same call on a fresh object' % (sc.name, opname),
+                            dict(detail, got=repr(got)[:600], want=repr(want)[:600]))
+        if got[0] == 'ok':
+            returned.extend(writable_arrays(got[1]))
+    c.case((sc.name, tuple((e.get('op'), e.get('argset')) for e in events)), nontrivial=True)
+    return nbad
+
+
+def scenarios(rng):
+    from nutils import mesh, function, solver, sample
+    out = []
+
+    # ---- solver.System: nonlinear symmetric problem with a non-trial argument
+    def mk_system_nl():
+        domain, geom = mesh.rectilinear([numpy.linspace(0, 1, 4)])
+        basis = domain.basis('std', degree=1)
+        u = function.dotarg('u', basis)
+        f = function.Argument('f', ())
+        q = function.dotarg('q', basis)
+        J = function.J(geom)
+        energy = domain.integral((.5 * function.grad(u, geom) @ function.grad(u, geom) + .25 * u**4 - f * u + q * u) * J, degree=4)
+        return solver.System(energy, trial='u')
+    nd = 4
+    def argsets_nl():
+        r = numpy.random.default_rng(rng.getrandbits(32))
+        sets = []
+        for _ in range(4):
+            sets.append(dict(u=r.integers(-4, 5, nd) / 2., f=numpy.array(r.integers(-3, 4) / 1.), q=r.integers(-2, 3, nd) / 1.))
+        sets.append(dict(sets[0], f=sets[1]['f']))            # only a non-trial argument changes
+        sets.append(dict(sets[0], u=sets[2]['u']))            # only the trial argument changes
+        return sets
+    cons = numpy.array([0.] + [numpy.nan] * (nd - 1))
+    ops_sys = {
+        'assemble': lambda S, a: S.assemble(a),
+        'jacobian': lambda S, a: S.assemble_jacobian(a),
+        'residual': lambda S, a: S.assemble_residual(a),
+        'value': lambda S, a: S.assemble_value(a),
+        'jacobian_residual': lambda S, a: S.assemble_jacobian_residual(a),
+        'solve': lambda S, a: S.solve(arguments=dict(a), constrain={'u': cons}, tol=1e-10, maxiter=20),
+    }
+    out.append(Scenario('System-nonlinear', mk_system_nl, ops_sys, argsets_nl()))
+
+    # ---- solver.System: linear problem, constant matrix, argument-dependent right-hand side, non-symmetric form (trial != test)
+    def mk_system_lin():
+        domain, geom = mesh.rectilinear([numpy.linspace(0, 1, 4)])
+        basis = domain.basis('std', degree=1)
+        u = function.dotarg('u', basis)
+        v = function.dotarg('v', basis)
+        f = function.Argument('f', ())
+        k = function.Argument('k', ())
+        J = function.J(geom)
+        res = domain.integral((k * (function.grad(v, geom) @ function.grad(u, geom)) + u * v - f * v) * J, degree=2)
+        return solver.System(res, trial='u', test='v')
+    ops_lin = {
+        'assemble': lambda S, a: S.assemble(a),
+        'jacobian': lambda S, a: S.assemble_jacobian(a),
+        'residual': lambda S, a: S.assemble_residual(a),
+        'jacobian_residual': lambda S, a: S.assemble_jacobian_residual(a),
+        'solve': lambda S, a: S.solve(arguments={k: v for k, v in a.items() if k != 'u'}, constrain={'u': cons}),
+    }
+    sets = argsets_nl()
+    for j, s in enumerate(sets): s.pop('q'); s['v'] = numpy.zeros(nd); s['k'] = numpy.array(1. + (j % 3))
+    out.append(Scenario('System-linear', mk_system_lin, ops_lin, sets))
+
+    # ---- function.Basis: dofs / coefficients / ndofs per element, interleaved across elements
+    def mk_basis():
+        domain, geom = mesh.rectilinear([3, 2])
+        kind = mk_basis.kind
+        if kind == 'std2': return domain.basis('std', degree=2)
+        if kind == 'discont': return domain.basis('discont', degree=1)
+        if kind == 'spline': return domain.basis('spline', degree=2)
+        return domain.refined_by([0]).basis('h-std', degree=1)
+    for kind in ('std2', 'discont', 'spline', 'hier'):
+        def mk(kind=kind):
+            mk_basis.kind = kind
+            return mk_basis()
+        nel = 6
+        ops_b = {
+            'get_dofs': lambda B, a: B.get_dofs(int(a['ielem'])),
+            'get_coefficients': lambda B, a: B.get_coefficients(int(a['ielem'])),
+            'get_ndofs': lambda B, a: B.get_ndofs(int(a['ielem'])),
+            'get_dofs_vec': lambda B, a: B.get_dofs(numpy.array([int(a['ielem']), (int(a['ielem']) + 1) % nel])),
+        }
+        out.append(Scenario('Basis-' + kind, mk, ops_b, [dict(ielem=numpy.array(i)) for i in range(nel)]))
+
+    # ---- topology.locate twice with different targets
+    def mk_topo():
+        domain, geom = mesh.rectilinear([numpy.linspace(0, 2, 5), numpy.linspace(0, 1, 3)])
+        return domain, geom * numpy.array([1., 2.]) + numpy.array([.5, 0.])
+    def locate(T, a):
+        domain, geom = T
+        smp = domain.locate(geom, a['x'], eps=1e-10, tol=1e-12)
+        return smp.eval(geom)
+    r = numpy.random.default_rng(rng.getrandbits(32))
+    out.append(Scenario('locate', mk_topo, {'locate': locate},
+                        [dict(x=numpy.stack([.5 + r.integers(1, 16, n) / 8., r.integers(1, 16, n) / 8.], axis=1)) for n in (1, 2, 3, 2)]))
+
+    # ---- trim with two level sets
+    def trim(T, a):
+        domain, geom = T
+        x, y = geom
+        sub = domain.trim(x * float(a['a']) + y - float(a['b']), maxrefine=int(a['m']))
+        return sub.integrate(function.J(geom), degree=2), sub.integrate(x * function.J(geom), degree=2)
+    out.append(Scenario('trim', mk_topo, {'trim': trim},
+                        [dict(a=numpy.array(1.), b=numpy.array(1.75), m=numpy.array(1)), dict(a=numpy.array(.5), b=numpy.array(1.125), m=numpy.array(2)),
+                         dict(a=numpy.array(-1.), b=numpy.array(-1.5), m=numpy.array(0))]))
+
+    # ---- sample: repeated evaluation / integration with changed arguments through bound integrals
+    def mk_sample():
+        domain, geom = mesh.rectilinear([numpy.linspace(0, 1, 4)])
+        basis = domain.basis('std', degree=1)
+        smp = domain.sample('gauss', 2)
+        u = function.dotarg('u', basis)
+        s = function.Argument('s', ())
+        return smp, geom, u, s, smp.integral(u**2 * s * function.J(geom)), smp.bind(u * s + geom[0])
+    def s_eval(T, a):
+        smp, geom, u, s, _, _ = T
+        return smp.eval(u * s + geom[0], dict(u=a['u'], s=a['s']))
+    def s_integrate(T, a):
+        smp, geom, u, s, _, _ = T
+        return smp.integrate([u * s * function.J(geom), function.grad(u, geom)[0] * function.J(geom)], dict(u=a['u'], s=a['s']))
+    def s_sparse(T, a):
+        smp, geom, u, s, integral, bound = T
+        return function.eval([integral, function.derivative(integral, 'u'), bound], dict(u=a['u'], s=a['s']))
+    ops_s = {'eval': s_eval, 'integrate': s_integrate, 'sparse': s_sparse}
+    r = numpy.random.default_rng(rng.getrandbits(32))
+    sets = [dict(u=r.integers(-4, 5, 4) / 2., s=numpy.array(r.integers(1, 4) / 1.)) for _ in range(3)]
+    sets.append(dict(sets[0], s=sets[1]['s']))
+    out.append(Scenario('sample', mk_sample, ops_s, sets))
+    return out
+
+
 def run(c):
-    pass
+    import treelog
+    quiet = treelog.NullLog() if hasattr(treelog, 'NullLog') else treelog.FilterLog(treelog.StdoutLog(), minlevel=treelog.proto.Level.error)
+    with treelog.set(quiet):
+        _run(c)
+
+
+def _run(c):
+    ncalls = 5 if c.tier == 'quick' else 12
+    reps = 1 if c.tier == 'quick' else 6
+    nbad = 0; nrun = 0
+    broken = collections.Counter()
+    for _ in range(reps):
+        try:
+            scs = scenarios(c.rng)
+        except Exception as e:
+            c.count('owners:scenario-construction-failed:' + type(e).__name__)
+            raise
+        for sc in scs:
+            # a scenario whose FRESH owner cannot even answer its first call is a harness problem, not a finding
+            nbad += run_scenario(c, sc, ncalls); nrun += 1
+    c.obligation('oracle:long-lived-owners', nrun > 0 and nbad == 0, 'exploration',
+                 '%d owner histories (System nonlinear/linear, Basis x4, locate, trim, sample) compared with fresh objects' % nrun)
